@@ -415,7 +415,15 @@ impl Exec {
         if TRACE_ON.load(std::sync::atomic::Ordering::Relaxed) {
             eprintln!("[sim] >>> injecting poll of {} at {:?} inside {}", self.tasks[pick].name, site, saved_label);
         }
+        // events recorded by the injected task belong to its endpoint, not to the host's
+        let pick_side = match self.tasks[pick].name.as_bytes().first() {
+            Some(b'c') => 0,
+            Some(b's') => 1,
+            _ => 2,
+        };
+        h2::verif::event(h2::verif::Ev::Note { site: INJECT_ENTER, id: pick_side });
         self.poll_task(pick);
+        h2::verif::event(h2::verif::Ev::Note { site: INJECT_EXIT, id: pick_side });
         if TRACE_ON.load(std::sync::atomic::Ordering::Relaxed) {
             eprintln!("[sim] <<< back in {}", saved_label);
         }
@@ -430,6 +438,32 @@ impl Exec {
             match self.step_once() {
                 StepOutcome::Ran(e) => after(self, e),
                 o => return o,
+            }
+        }
+    }
+}
+
+pub const INJECT_ENTER: &str = "sim:inject-enter";
+pub const INJECT_EXIT: &str = "sim:inject-exit";
+
+/// Splits the events recorded during one executor step by endpoint: events of a task that
+/// was polled at a yield point inside the host task go to that task's side.
+pub fn route_events(evs: &[h2::verif::Ev], host_side: Option<usize>, mut f: impl FnMut(usize, h2::verif::Ev)) {
+    let mut cur = host_side;
+    let mut stack: Vec<Option<usize>> = Vec::new();
+    for e in evs {
+        match e {
+            h2::verif::Ev::Note { site, id } if *site == INJECT_ENTER => {
+                stack.push(cur);
+                cur = if *id < 2 { Some(*id as usize) } else { None };
+            }
+            h2::verif::Ev::Note { site, .. } if *site == INJECT_EXIT => {
+                cur = stack.pop().unwrap_or(host_side);
+            }
+            other => {
+                if let Some(s) = cur {
+                    f(s, *other);
+                }
             }
         }
     }
